@@ -114,6 +114,10 @@ func init() {
 				sc.Stages = append(sc.Stages, StageSpec{Op: "Serialize"})
 			}
 			sc.Sources = []SrcSpec{{Mode: "async", Ctor: ctor, Producers: g.Range(2, 4), Script: genScript(g, 10, 3, "CE--", false)}}
+			if ctor != "unsafe" && g.Bool(0.2) {
+				sc.Sources[0].PanicAfterSpawn = true
+				sc.Sources[0].Producers = g.Range(1, 2)
+			}
 			if g.Bool(0.5) {
 				sc.Stages = append(sc.Stages, StageSpec{Op: g.Pick("Map", "Tap", "StartWith", "TapOnFinalize", "TapOnSubscribe", "Defer", "Catch", "Scan", "TakeLast"), P: []int{1}})
 			}
@@ -140,7 +144,8 @@ func init() {
 				if c.Step.K != "N" {
 					return
 				}
-				if termInvoked || !identity || c.Panic != nil {
+				if termInvoked || !identity || c.Panic != nil || rec.Terminal() != 0 {
+					// (a terminal may also come from the subscribe function itself, when it panics)
 					return
 				}
 				for _, ev := range rec.Events {
@@ -215,7 +220,7 @@ func init() {
 
 	Register(&Family{
 		Name:   "C02.time",
-		Props:  []string{"C02", "C13"},
+		Props:  []string{"C02", "C13", "C01"},
 		Weight: 3,
 		Gen: func(g *Gen) *Scn {
 			sc := &Scn{Family: "C02.time"}
@@ -263,6 +268,9 @@ func init() {
 			}
 			e.SettleFor(100 * Unit)
 			checkNoOverlap(e, rec)
+			if g := rec.GrammarError(); g != "" {
+				e.Violate("C01", "grammar", fmt.Sprintf("%s with the library's own timers and context watchers emitting next to the source: %s (trace %s)", sc.Sub, g, rec.Trace()))
+			}
 		},
 	})
 }
